@@ -71,3 +71,136 @@ package vbft
 //@   ensures err == nil ==> forall a int, p int :: 0 <= a && a < len(result.Endorsers) && 0 <= p && uint64(p) < uint64(chainCfg.C) ==> result.Endorsers[a] != result.Proposers[p]
 //@   ensures err == nil ==> forall a int, p int :: 0 <= a && a < len(result.Committers) && 0 <= p && uint64(p) < uint64(chainCfg.C) ==> result.Committers[a] != result.Proposers[p]
 //@   ensures err == nil ==> forall a int :: 0 <= a && a < len(result.Proposers) ==> exists j int :: 0 <= j && j < len(chainCfg.PosTable) && result.Proposers[a] == chainCfg.PosTable[j]
+
+// ---- C41: round decisions count distinct participants ---------------------------------------------------------
+// Signatures collected for one round are kept per endorser index (a map, so an endorser has one list). A list is
+// well formed when its entries are non-nil, no two non-empty entries endorse the same proposer and at most one
+// entry is for the empty block: so walking all lists counts an endorser at most once per proposer and at most once
+// for the empty block. Lists of different endorsers do not share their backing array.
+//@ spec wfSigs(l []*CandidateEndorseSigInfo) bool = (forall i int :: 0 <= i && i < len(l) ==> l[i] != nil) && (forall i int, j int :: 0 <= i && i < j && j < len(l) && !l[i].ForEmpty && !l[j].ForEmpty ==> l[i].EndorsedProposer != l[j].EndorsedProposer) && (forall i int, j int :: 0 <= i && i < j && j < len(l) ==> !(l[i].ForEmpty && l[j].ForEmpty))
+//@ spec wfCand(c *CandidateInfo) bool = c != nil && !isnil(c.EndorseSigs) && (forall e uint32 :: has(c.EndorseSigs, e) ==> allocated(ref(c.EndorseSigs[e])) && forall i int :: 0 <= i && i < len(c.EndorseSigs[e]) ==> c.EndorseSigs[e][i] != nil && allocated(c.EndorseSigs[e][i])) && (forall e uint32 :: has(c.EndorseSigs, e) ==> forall i int, j int :: 0 <= i && i < j && j < len(c.EndorseSigs[e]) && !c.EndorseSigs[e][i].ForEmpty && !c.EndorseSigs[e][j].ForEmpty ==> c.EndorseSigs[e][i].EndorsedProposer != c.EndorseSigs[e][j].EndorsedProposer) && (forall e uint32 :: has(c.EndorseSigs, e) ==> forall i int, j int :: 0 <= i && i < j && j < len(c.EndorseSigs[e]) ==> !(c.EndorseSigs[e][i].ForEmpty && c.EndorseSigs[e][j].ForEmpty)) && (forall e1 uint32, e2 uint32 :: has(c.EndorseSigs, e1) && has(c.EndorseSigs, e2) && e1 != e2 ==> ref(c.EndorseSigs[e1]) != ref(c.EndorseSigs[e2]))
+
+//@ func (*BlockPool).getCandidateInfoLocked
+//@   property C41
+//@   mode abstract
+//@   nopanic on
+//@   requires pool != nil && !isnil(pool.candidateBlocks)
+//@   requires forall b uint32 :: has(pool.candidateBlocks, b) ==> pool.candidateBlocks[b] != nil
+//@   modifies mapof(pool.candidateBlocks)
+//@   ensures result != nil && has(pool.candidateBlocks, blkNum) && result == pool.candidateBlocks[blkNum]
+//@   ensures old(has(pool.candidateBlocks, blkNum)) ==> result == old(pool.candidateBlocks[blkNum])
+//@   ensures !old(has(pool.candidateBlocks, blkNum)) ==> fresh(result) && !isnil(result.EndorseSigs) && (forall e uint32 :: !has(result.EndorseSigs, e)) && len(result.CommitMsgs) == 0
+//@   ensures forall b uint32 :: b != blkNum ==> (has(pool.candidateBlocks, b) <==> old(has(pool.candidateBlocks, b))) && pool.candidateBlocks[b] == old(pool.candidateBlocks[b])
+
+// a repeated endorsement of the same proposer by the same endorser, or anything after its vote for the empty block,
+// changes nothing; a commit replaces the committer's list by the single commit signature: the round's record
+// stays well formed (rounds are assumed not to share list storage: each list starts as a fresh one-element slice)
+//@ func (*BlockPool).addBlockEndorsementLocked
+//@   property C41
+//@   mode abstract
+//@   postmode cases
+//@   nopanic on
+//@   requires pool != nil && !isnil(pool.candidateBlocks) && eSig != nil
+//@   requires forall b uint32 :: has(pool.candidateBlocks, b) ==> pool.candidateBlocks[b] != nil
+//@   requires has(pool.candidateBlocks, blkNum) ==> wfCand(pool.candidateBlocks[blkNum])
+//@   modifies *
+//@   ensures[c41-one-vote-per-endorser-and-proposer] has(pool.candidateBlocks, blkNum) && wfCand(pool.candidateBlocks[blkNum])
+//@   ensures forall b uint32 :: has(pool.candidateBlocks, b) ==> pool.candidateBlocks[b] != nil
+//@   ensures forall b uint32 :: b != blkNum ==> (has(pool.candidateBlocks, b) <==> old(has(pool.candidateBlocks, b))) && pool.candidateBlocks[b] == old(pool.candidateBlocks[b])
+//@   ensures old(has(pool.candidateBlocks, blkNum)) ==> pool.candidateBlocks[blkNum] == old(pool.candidateBlocks[blkNum]) && pool.candidateBlocks[blkNum].CommitMsgs == old(pool.candidateBlocks[blkNum].CommitMsgs)
+//@   loop 1 invariant forall j int :: 0 <= j && j < it1 ==> !eSigs[j].ForEmpty
+//@   loop 2 invariant forall j int :: 0 <= j && j < it2 ==> eSigs[j].EndorsedProposer != eSig.EndorsedProposer
+//@   assert after "candidate.EndorseSigs[endorser] = append(eSigs, eSig)" : wfCand(candidate)
+//@   assert after "candidate.EndorseSigs[endorser] = []*CandidateEndorseSigInfo{eSig}" : wfCand(candidate)
+
+// Endorsement quorum: the tallies are compared with ghost tallies that count an endorser at most once per endorsed
+// proposer (gcnt) and at most once for the empty block (gempty), whatever its list holds; with well-formed lists the
+// two agree, and the round is reported endorsed only when such a tally exceeds C.
+//@ func (*BlockPool).endorseDone
+//@   property C41
+//@   mode abstract
+//@   nopanic on
+//@   requires pool != nil && !isnil(pool.candidateBlocks)
+//@   requires has(pool.candidateBlocks, blkNum) ==> wfCand(pool.candidateBlocks[blkNum])
+//@   modifies nothing
+//@   ghost var g0 ArrU64U32
+//@   ghost var gcnt ArrU64U32
+//@   ghost var gempty int = 0
+//@   set before "candidate := pool.candidateBlocks[blkNum]" : gcnt := g0
+//@   set before "endorseCount[esig.EndorsedProposer] += 1" : gcnt := upd(gcnt, uint64(esig.EndorsedProposer), gcnt[uint64(esig.EndorsedProposer)] + ite(exists j int :: 0 <= j && j < it2 && !eSigs[j].ForEmpty && eSigs[j].EndorsedProposer == esig.EndorsedProposer, uint32(0), uint32(1)))
+//@   set before "emptyEndorseCount++" : gempty := gempty + ite(exists j int :: 0 <= j && j < it2 && eSigs[j].ForEmpty, 0, 1)
+//@   loop 1 invariant !isnil(endorseCount) && candidate != nil && wfCand(candidate) && emptyEndorseCount == gempty && forall p uint32 :: endorseCount[p] == gcnt[uint64(p)] - g0[uint64(p)]
+//@   loop 2 invariant !isnil(endorseCount) && candidate != nil && wfCand(candidate) && wfSigs(eSigs) && emptyEndorseCount == gempty && forall p uint32 :: endorseCount[p] == gcnt[uint64(p)] - g0[uint64(p)]
+//@   assert[c41-endorsed-needs-more-than-c] before "return esig.EndorsedProposer, false, true" : gcnt[uint64(esig.EndorsedProposer)] - g0[uint64(esig.EndorsedProposer)] > C
+//@   assert[c41-empty-needs-more-than-c] before "return esig.EndorsedProposer, true, true" : gempty > int(C)
+//@   ensures[c41-not-endorsed-without-quorum] !has(pool.candidateBlocks, blkNum) ==> !r2
+
+//@ func (*blockEndorseMsg).GetBlockNum
+//@   inline
+//@ func (*blockCommitMsg).GetBlockNum
+//@   inline
+
+//@ func (*BlockPool).newBlockEndorsement
+//@   property C41
+//@   mode abstract
+//@   nopanic on
+//@   requires pool != nil && !isnil(pool.candidateBlocks) && msg != nil
+//@   requires forall b uint32 :: has(pool.candidateBlocks, b) ==> pool.candidateBlocks[b] != nil && wfCand(pool.candidateBlocks[b])
+//@   modifies *
+//@   callsite[c41-recorded-as-sent] addBlockEndorsementLocked#1 requires arg1 == msg.Endorser && arg2.EndorsedProposer == msg.EndorsedProposer && arg2.ForEmpty == msg.EndorseForEmpty && !arg3
+
+// a second commit message of a committer is either the same commit again (ignored) or refused: the message list is
+// extended only when no message of this committer is in it; the committer's own signature is recorded as a commit
+// (replacing what it had endorsed before), the endorsers' signatures it carries as ordinary endorsements
+//@ func (*BlockPool).newBlockCommitment
+//@   property C41
+//@   mode abstract
+//@   requires pool != nil && !isnil(pool.candidateBlocks) && msg != nil
+//@   requires forall b uint32 :: has(pool.candidateBlocks, b) ==> pool.candidateBlocks[b] != nil && wfCand(pool.candidateBlocks[b])
+//@   modifies *
+//@   loop 1 invariant candidate != nil && forall j int :: 0 <= j && j < it1 ==> candidate.CommitMsgs[j] != nil ==> candidate.CommitMsgs[j].Committer != msg.Committer
+//@   loop 2 invariant pool != nil && !isnil(pool.candidateBlocks) && msg != nil && (forall b uint32 :: has(pool.candidateBlocks, b) ==> pool.candidateBlocks[b] != nil) && has(pool.candidateBlocks, blkNum) && wfCand(pool.candidateBlocks[blkNum])
+//@   assert[c41-one-commit-per-committer] before loop 2 : forall j int :: 0 <= j && j < len(candidate.CommitMsgs) ==> candidate.CommitMsgs[j] != nil ==> candidate.CommitMsgs[j].Committer != msg.Committer
+//@   callsite[c41-endorsers-as-endorsements] addBlockEndorsementLocked#1 requires arg0 == blkNum && arg1 == endorser && arg2.EndorsedProposer == msg.BlockProposer && arg2.ForEmpty == msg.CommitForEmpty && !arg3
+//@   callsite[c41-committer-as-commit] addBlockEndorsementLocked#2 requires arg0 == blkNum && arg1 == msg.Committer && arg2.EndorsedProposer == msg.BlockProposer && arg2.ForEmpty == msg.CommitForEmpty && arg3
+
+// commit quorum by commit messages: a proposer is reported only when the distinct signers collected for it (its
+// committers and the endorsers they carry; a map, so each signer once) plus the proposer itself reach N - (N-1)/3
+//@ func getCommitConsensus
+//@   property C41
+//@   mode abstract
+//@   nopanic on
+//@   requires forall a int :: 0 <= a && a < len(commitMsgs) ==> commitMsgs[a] != nil
+//@   modifies nothing
+//@   loop 1 invariant !isnil(signCount) && forall p uint32 :: has(signCount, p) ==> !isnil(signCount[p])
+//@   assert[c41-commit-needs-quorum-of-signers] before "return c.BlockProposer, emptyCommit" : len(signCount[c.BlockProposer]) + 1 >= N - (N-1)/3
+//@   ensures[c41-no-quorum-no-proposer] len(commitMsgs) == 0 ==> r0 == 4294967295
+
+//@ func (*Server).isEndorser
+//@   property C41
+//@   mode abstract
+//@   requires self != nil
+//@   modifies nothing
+
+// commit quorum by endorsement signatures: every participant (endorser index) counts at most once for the empty
+// block and at most once for a proposer, so neither tally can exceed the number of participants visited; commit is
+// reported for a proposer only above N-1-C such signatures
+//@ func (*BlockPool).commitDone
+//@   property C41
+//@   mode abstract
+//@   nopanic on
+//@   requires pool != nil && !isnil(pool.candidateBlocks) && pool.server != nil && C < N
+//@   requires has(pool.candidateBlocks, blkNum) ==> wfCand(pool.candidateBlocks[blkNum]) && forall a int :: 0 <= a && a < len(pool.candidateBlocks[blkNum].CommitMsgs) ==> pool.candidateBlocks[blkNum].CommitMsgs[a] != nil
+//@   modifies nothing
+//@   ghost var gc uint32
+//@   set after "C = N - 1 - C" : gc := C
+//@   snapshot si before loop 3
+//@   loop 1 invariant !isnil(endorseCnt) && candidate != nil && wfCand(candidate) && C == gc
+//@   loop 1 invariant[c41-one-empty-vote-per-participant] int(emptyCnt) <= it1
+//@   loop 1 invariant[c41-one-vote-per-participant-and-proposer] forall p uint32 :: int(endorseCnt[p]) <= it1
+//@   loop 2 invariant !isnil(endorseCnt) && candidate != nil && wfCand(candidate) && wfSigs(eSigs) && C == gc && int(emptyCnt) <= it1 && forall p uint32 :: int(endorseCnt[p]) <= it1
+//@   loop 3 invariant !isnil(endorseCnt) && candidate != nil && wfCand(candidate) && wfSigs(eSigs) && C == gc
+//@   loop 3 invariant int(emptyCnt) <= int(at(si, emptyCnt)) + 1 && (int(emptyCnt) == int(at(si, emptyCnt)) + 1 ==> exists j int :: 0 <= j && j < it3 && eSigs[j].ForEmpty) && int(at(si, emptyCnt)) <= it1
+//@   loop 3 invariant forall p uint32 :: int(endorseCnt[p]) <= int(at(si, endorseCnt[p])) + 1 && (int(endorseCnt[p]) == int(at(si, endorseCnt[p])) + 1 ==> exists j int :: 0 <= j && j < it3 && !eSigs[j].ForEmpty && eSigs[j].EndorsedProposer == p) && int(at(si, endorseCnt[p])) <= it1
+//@   assert[c41-commit-needs-more-than-n-1-c] before "proposer = sig.EndorsedProposer" : endorseCnt[sig.EndorsedProposer] > gc
+//@   assert[c41-empty-commit-needs-more-than-n-1-c] after "forEmpty = emptyCnt > C" : forEmpty ==> emptyCnt > gc && int(emptyCnt) <= it1 + 1
